@@ -13,8 +13,8 @@
    READING  event [dir |-> "read", via, text, k ("val" | "err" | "soft"), code, b, wid]
      the text denotes dec exactly; the stored number b has type Len(b) \in {2, 4, 8}:
        type from the sigil, the exponent letter and the digit count  read_type
-       integer: b = dec exactly; float: |b - dec| < ulp(b)           read_error
-       b = 0 only for dec = 0 or |dec| < 2^-128                      read_zero
+       integer: b = dec exactly; float: |b - dec| < ulp(b)           read_error (read_error_long_mantissa)
+       b = 0 only for dec = 0 or |dec| < 2^-128                      read_zero (read_zero_near_min)
        Overflow only when |dec| exceeds the largest number           read_overflow_spurious
      wid = TRUE: the number was observed after storing it in a double variable (exact
      widening): the type is then inferred (a double whose low four bytes are zero may be
@@ -52,14 +52,24 @@ TypeSet(p, dec, hasBlank) ==
     ELSE IF SigStrict(p) > 7 THEN (IF p.letter = 69 THEN {4, 8} ELSE {8})
     ELSE IF SigLoose(p) > 7 THEN {4, 8}
     ELSE IF p.letter = 0 /\ ~p.point /\ ScCmp(dec, ScInt(32767)) <= 0 /\ ScCmp(dec, ScInt(-32768)) >= 0
-         THEN (IF hasBlank THEN {2, 4} ELSE {2})
+         THEN (IF hasBlank \/ p.signed THEN {2, 4} ELSE {2})
     ELSE {4}
 
-\* a stored number b (2, 4, 8 bytes) of type ty stands for dec
-ValueOK(b, dec) ==
+\* Does the stored number b (2, 4, 8 bytes) stand for dec?  mant = the mantissa digits of the text as an integer.
+\* Two classes get their own clause names (open findings, see notes/C07.md): a text whose mantissa integer does
+\* not fit the mantissa of the type exactly (error found up to 2.4 ulp, reported up to 3 ulp under this name), and
+\* a value less than 3 ulp above the smallest positive number that is flushed to zero.
+ValueOK(b, dec, mant) ==
     IF Len(b) = 2 THEN (IF ScEq(IntVal(b), dec) THEN "ok" ELSE "read_error")
-    ELSE IF MbfIsZero(b) THEN (IF ScIsZero(dec) \/ ScAbsLt(dec, MbfMinPos) THEN "ok" ELSE "read_zero")
-    ELSE IF ScAbsLt(ScSub(MbfVal(b), dec), MbfUlp(b)) THEN "ok" ELSE "read_error"
+    ELSE IF MbfIsZero(b) THEN
+        IF ScIsZero(dec) \/ ScAbsLt(dec, MbfMinPos) THEN "ok"
+        ELSE IF ScAbsLt(dec, ScAdd(MbfMinPos, Sc(FALSE, <<3>>, -127 - MbfWidth(b), 0))) THEN "read_zero_near_min"
+        ELSE "read_zero"
+    ELSE LET diff == ScSub(MbfVal(b), dec)
+             U == MbfUlp(b)
+         IN  IF ScAbsLt(diff, U) THEN "ok"
+             ELSE IF ~Lt(mant, Pow2(MbfWidth(b))) /\ ScAbsLt(diff, ScMul(ScInt(3), U)) THEN "read_error_long_mantissa"
+             ELSE "read_error"
 
 ReadV(e) ==
     IF ~IsByteSeq(e.text) THEN "malformed_event"
@@ -67,6 +77,7 @@ ReadV(e) ==
     LET t1 == Unblank(e.text)
         p == ParseNum(t1)
         dec == NumVal(p)
+        mant == FromDec(p.ds)
         \* blanks inside the number (leading and trailing ones do not count)
         f == FirstIn(e.text, {c \in 0..255 : NotBlank(c)}, 1)
         inner == IF f = 0 THEN <<>> ELSE StripTrail(From(e.text, f))
@@ -84,16 +95,20 @@ ReadV(e) ==
             ELSE "ok"
         ELSE IF ~NumWellFormed(e.b) THEN "malformed_event"
         ELSE IF ~e.wid THEN
-            IF Len(e.b) \notin types THEN "read_type" ELSE ValueOK(e.b, dec)
+            IF Len(e.b) \notin types THEN "read_type" ELSE ValueOK(e.b, dec, mant)
         ELSE
-            \* observed as a double: try every type the text may have
+            \* observed as a double: judge every type the text may have, report the most favourable verdict
             IF Len(e.b) # 8 THEN "malformed_event"
-            ELSE IF 8 \in types /\ ValueOK(e.b, dec) = "ok" THEN "ok"
-            ELSE IF 4 \in types /\ DoubleIsSingle(e.b) /\ ValueOK(From(e.b, 5), dec) = "ok" THEN "ok"
-            ELSE IF 2 \in types /\ ScEq(MbfVal(e.b), dec) THEN "ok"
-            ELSE IF 8 \notin types /\ ~DoubleIsSingle(e.b) THEN "read_type"
-            ELSE IF 8 \in types THEN ValueOK(e.b, dec)
-            ELSE ValueOK(From(e.b, 5), dec)
+            ELSE LET v8 == IF 8 \in types THEN ValueOK(e.b, dec, mant) ELSE "none"
+                     v4 == IF 4 \in types /\ DoubleIsSingle(e.b) THEN ValueOK(From(e.b, 5), dec, mant) ELSE "none"
+                     v2 == IF 2 \in types /\ ScEq(MbfVal(e.b), dec) THEN "ok" ELSE "none"
+                     vs == {v8, v4, v2}
+                 IN  IF "ok" \in vs THEN "ok"
+                     ELSE IF "read_error_long_mantissa" \in vs THEN "read_error_long_mantissa"
+                     ELSE IF "read_zero_near_min" \in vs THEN "read_zero_near_min"
+                     ELSE IF v4 # "none" THEN v4
+                     ELSE IF v8 # "none" THEN v8
+                     ELSE "read_type"
 
 V(e) == IF e.dir = "print" THEN PrintV(e) ELSE IF e.dir = "read" THEN ReadV(e) ELSE "malformed_event"
 
